@@ -91,6 +91,8 @@ type interpreter struct {
 	sizes              types.Sizes  // the effective type-sizing function
 	goroutines         int32        // atomically updated
 	fninfo             map[*ssa.Function]*fnInfo
+	unwindKey          string
+	unwindTrace        []string
 	depth              int
 	skipInit           map[string]bool   // package paths whose init is not run
 	poisoned           map[string]string // package path -> why its init failed
@@ -136,6 +138,29 @@ type fnInfo struct {
 	skipInit bool
 	pkgInit  bool
 	calls    int
+}
+
+// noteUnwind records the target functions a panic unwinds through, so that
+// an inconclusive path can say where the unsupported operation was reached.
+func (i *interpreter) noteUnwind(fn *ssa.Function, r any) {
+	key := ""
+	switch r := r.(type) {
+	case unsupported:
+		key = string(r)
+	case string:
+		key = r
+	case error:
+		key = r.Error()
+	default:
+		key = fmt.Sprintf("%T", r)
+	}
+	if key != i.unwindKey {
+		i.unwindKey = key
+		i.unwindTrace = i.unwindTrace[:0]
+	}
+	if len(i.unwindTrace) < 10 {
+		i.unwindTrace = append(i.unwindTrace, fn.String())
+	}
 }
 
 func (i *interpreter) info(fn *ssa.Function) *fnInfo {
@@ -681,7 +706,11 @@ func runFrame(fr *frame) {
 		if fr.i.mode&DisableRecover != 0 {
 			return // let interpreter crash
 		}
-		p := classifyPanic(recover())
+		r := recover()
+		if r != nil {
+			fr.i.noteUnwind(fr.fn, r)
+		}
+		p := classifyPanic(r)
 		fr.panicking = true
 		fr.panic = p
 		if fr.i.mode&EnableTracing != 0 {
